@@ -294,6 +294,78 @@ theorem warn_verdict_is_on_delivered_response (ops : List Op) (hv : ValidCodes o
     unfold wroteStatus at hw
     simp [validatedStatus, hw]
 
+/-! ## histories: one middleware instance serving a sequence of requests -/
+
+/-- **serve_history_free.** What a Validator answers to a request does not depend on the state earlier
+requests left behind (there is none: see the `validator_*` table obligations below). -/
+theorem serve_history_free (cfg : Cfg) : HistoryFree (serve cfg) := fun _ _ _ => rfl
+
+/-- **serveSeq_pointwise.** The outcome of every request of a sequence through one `Middleware(h)` chain is the
+outcome of that request alone — whatever came before it (rejected responses, rejected requests, panics). -/
+theorem serveSeq_pointwise (cfg : Cfg) (reqs : List Req) :
+    serveSeq cfg reqs = reqs.map (fun r => middleware cfg r.env r.ops) :=
+  runSeq_of_historyFree (serve cfg) (serve_history_free cfg) {} {} reqs
+
+/-- the n-th answer is a function of the n-th request alone: two histories that agree on request n agree on
+answer n -/
+theorem nth_outcome_depends_on_nth_request (cfg : Cfg) (pre1 pre2 post1 post2 : List Req) (r : Req)
+    (hl : pre1.length = pre2.length) :
+    (serveSeq cfg (pre1 ++ r :: post1))[pre1.length]? = (serveSeq cfg (pre2 ++ r :: post2))[pre1.length]? := by
+  rw [serveSeq_pointwise, serveSeq_pointwise]
+  simp [hl]
+
+/-- **every_request_of_a_history_meets_spec.** For every sequence of requests (handlers with acceptable status
+codes) each client receives what the property prescribes for its own request: handler run iff route and request
+are fine, strict replacement / exact delivery, non-strict pass-through — also right after a request whose
+response was rejected. -/
+theorem every_request_of_a_history_meets_spec (cfg : Cfg) (reqs : List Req)
+    (hv : ∀ r ∈ reqs, ValidCodes r.ops) : MeetsSeq cfg reqs (serveSeq cfg reqs) := by
+  rw [serveSeq_pointwise]
+  induction reqs with
+  | nil => trivial
+  | cons r rs ih =>
+    exact ⟨middleware_meets_spec cfg r.env r.ops (hv r (by simp)),
+           ih (fun x hx => hv x (List.mem_cons_of_mem _ hx))⟩
+
+/-- a rejected response leaves nothing behind: the request that follows it is delivered exactly -/
+theorem valid_after_rejected_is_delivered (cfg : Cfg) (bad good : Req) (hs : cfg.strict = true)
+    (hg : ValidCodes good.ops) (hr : good.env.routeFound = true) (hq : good.env.reqOK = true)
+    (hok : respValid good.env good.ops = true) :
+    ∃ o1 o2, serveSeq cfg [bad, good] = [o1, o2] ∧
+      o2.client.seen = ⟨(wroteStatus good.ops).getD 200, written good.ops⟩ ∧ o2.errCalls = [] := by
+  refine ⟨_, _, by rw [serveSeq_pointwise]; rfl, ?_⟩
+  have h := middleware_meets_spec cfg good.env good.ops hg
+  simp only [Meets, spec, hr, hq, hs, hok] at h
+  exact ⟨by simpa using h.2.1, by simpa using h.2.2.1⟩
+
+/-- **concurrent_requests_do_not_interfere.** Two requests in flight at the same time, each handler against
+its own strict wrapper, under an arbitrary schedule of their calls: each wrapper ends in the state its own
+handler alone would have left it in. -/
+theorem concurrent_requests_do_not_interfere (sch : List Bool) (wa wb : Strict) (opsA opsB : List Op) :
+    interleaveStrict sch (wa, opsA) (wb, opsB) = (Strict.run wa opsA, Strict.run wb opsB) := by
+  induction sch generalizing wa wb opsA opsB with
+  | nil => rfl
+  | cons b sch ih =>
+    cases b with
+    | true =>
+      cases opsA with
+      | nil => simp only [interleaveStrict]; exact ih wa wb [] opsB
+      | cons op opsA => simp only [interleaveStrict]; rw [ih]; rfl
+    | false =>
+      cases opsB with
+      | nil => simp only [interleaveStrict]; exact ih wa wb opsA []
+      | cons op opsB => simp only [interleaveStrict]; rw [ih]; rfl
+
+/-- non-vacuity: a rejected strict response followed by a valid one, then a rejected request, then a valid
+response on another verdict function; all four answers are the per-request ones -/
+example :
+    let bad : Req := ⟨{ routeFound := true, reqOK := true, respOK := fun _ _ b => b == ['1'] }, [.writeHeader 404, .write ['x']]⟩
+    let good : Req := ⟨{ routeFound := true, reqOK := true, respOK := fun _ _ b => b == ['1'] }, [.writeHeader 201, .write ['1']]⟩
+    let rej : Req := ⟨{ routeFound := true, reqOK := false, respOK := fun _ _ _ => true }, [.write ['z']]⟩
+    (serveSeq witnessCfg0 [bad, good, rej, good]).map (fun o => (o.handlerRan, o.client.seen)) =
+      [(true, ⟨500, "server error\n".toList⟩), (true, ⟨201, ['1']⟩), (false, ⟨400, "bad request\n".toList⟩), (true, ⟨201, ['1']⟩)] := by
+  decide
+
 /-! ## regression of the repaired finding F-C14-1 -/
 
 /-- a document whose `200` response demands a JSON body and that has no `default` response: status 0 is
@@ -329,6 +401,15 @@ run); a passing one reaches the handler, whose response is not touched. -/
 theorem vhandler_meets_spec (encOps : ReqFail → List Op) (fail : ReqFail) (ops : List Op) :
     vhandler encOps fail ops = vspec encOps fail ops := by
   cases fail <;> simp [vhandler, vspec]
+
+/-- histories through the older ValidationHandler: it keeps nothing between requests either -/
+theorem vserve_history_free (encOps : ReqFail → List Op) : HistoryFree (vserve encOps) := fun _ _ _ => rfl
+
+theorem vserveSeq_pointwise (encOps : ReqFail → List Op) (reqs : List VReq) :
+    vserveSeq encOps reqs = reqs.map (fun r => vspec encOps r.fail r.ops) := by
+  unfold vserveSeq
+  rw [runSeq_of_historyFree (vserve encOps) (vserve_history_free encOps) {} {} reqs]
+  simp [vserve, vhandler_meets_spec]
 
 /-! ## non-vacuity -/
 
